@@ -1,5 +1,893 @@
-//! C13 harness (stub: not implemented yet).
+//! C13 — no input from a remote peer can crash the node. Three sections, one check:
+//!
+//! * `a <stream hex> <onion set>` — bytes → frames → messages: the byte string is put into a REAL
+//!   `Deserializer<_, Frame<Message>>` and drained under `catch`.
+//!   Output `n=<frames> kinds=<g|c|t…|-> end=<more|err|panic> left=<unparsed bytes>`.
+//! * `b <sessions> <seeded> <op>…` — well-formed messages → service: a REAL `Service` (`test::peer::Peer`,
+//!   `MockStorage`) is put into the given session states and receives the messages under `catch`
+//!   (format: see `lean/HeartwoodModel/Driver/C13.lean`). Output: one char per op (`o`/`o+`/`m`/`t`/`P`/`-`).
+//! * `c <stream hex> <chunk> <graph>` — git request header through the hook-exposed `git_request`
+//!   (shared with C12, `../c12/src/header.rs`).
+//!
+//! Oracle: a panic anywhere is a violation (`frame-decode-panic`, `service-panic`, `git-request-panic`);
+//! a disconnect for a reason other than misbehaviour / invalid timestamp is reported as `d` (disagreement).
+
+#[path = "../../c12/src/header.rs"]
+mod header;
+#[path = "../../c15/src/wiregen.rs"]
+#[allow(dead_code)]
+mod wiregen;
+
+use std::net;
+use std::str::FromStr as _;
+
+use localtime::LocalTime;
+use radicle::identity::RepoId;
+use radicle::node::address::Store as _;
+use radicle::node::config::ConnectAddress;
+use radicle::node::device::Device;
+use radicle::node::policy::{Scope, SeedingPolicy};
+use radicle::node::{Address, Alias, ConnectOptions, Features, NodeId, Timestamp, UserAgent};
+use radicle::storage::refs::RefsAt;
+use radicle::test::storage::MockStorage;
+use radicle_crypto::test::signer::MockSigner;
+use radicle_node::bounded::BoundedVec;
+use radicle_node::deserializer::Deserializer;
+use radicle_node::service::filter::Filter;
+use radicle_node::service::io::Io;
+use radicle_node::service::message::*;
+use radicle_node::service::{self, session, Command, DisconnectReason};
+use radicle_node::test::peer::{Config, Peer};
+use radicle_node::wire;
+use radicle_node::wire::verif::{Control, Frame, FrameData, StreamId};
+use radicle_node::{Link, PROTOCOL_VERSION};
+use verif_common::*;
+
+// ---------------------------------------------------------------------------------------------------
+// (a) bytes → frames → messages
+
+const BIG_B: usize = 2097152;
+
+fn run_a(toks: &[&str]) -> Outcome {
+    let bad = || Outcome::new("bad-case").trivial();
+    if toks.len() != 2 {
+        return bad();
+    }
+    let Some(stream) = unhex(toks[0]) else { return bad() };
+    if stream.len() > BIG_B {
+        return bad();
+    }
+    // the graph of the opaque onion-address check must be the real one
+    match catch(|| wiregen::onion_token(&stream)) {
+        Ok(t) if t == toks[1] => {}
+        Ok(_) => return bad(),
+        Err(msg) => return Outcome::new("panic").violation("frame-decode-panic", format!("address decoding panicked: {msg}")),
+    }
+    let mut de = Deserializer::<BIG_B, Frame<Message>>::new(1024);
+    if de.input(&stream).is_err() {
+        return bad();
+    }
+    let mut kinds = String::new();
+    let mut n = 0usize;
+    let end;
+    let mut viol = None;
+    loop {
+        match catch(|| de.deserialize_next()) {
+            Ok(Ok(Some(frame))) => {
+                n += 1;
+                kinds.push(match frame.data {
+                    FrameData::Control(_) => 'c',
+                    FrameData::Gossip(_) => 'g',
+                    FrameData::Git(_) => 't',
+                });
+            }
+            Ok(Ok(None)) => {
+                end = "more";
+                break;
+            }
+            Ok(Err(_)) => {
+                end = "err";
+                break;
+            }
+            Err(msg) => {
+                end = "panic";
+                viol = Some(msg);
+                break;
+            }
+        }
+    }
+    let left = if end == "panic" { 0 } else { de.len() };
+    if kinds.is_empty() {
+        kinds.push('-');
+    }
+    let out = if end == "panic" { format!("n={n} kinds={kinds} end=panic left=?") } else { format!("n={n} kinds={kinds} end={end} left={left}") };
+    let mut o = Outcome::new(out).tag(format!("a:{end}"));
+    if n > 0 {
+        o = o.tag("a:some-frames");
+    }
+    if kinds.contains('g') {
+        o = o.tag("a:gossip");
+    }
+    if let Some(msg) = viol {
+        o = o.violation("frame-decode-panic", format!("decoding a {}-byte stream panicked after {n} frames: {msg}", stream.len()));
+    }
+    o
+}
+
+fn varint_bytes(v: u64, width: usize) -> Vec<u8> {
+    let tag = match width {
+        1 => 0u8,
+        2 => 1,
+        4 => 2,
+        _ => 3,
+    };
+    let mut b: Vec<u8> = (0..width).rev().map(|i| (v >> (8 * i)) as u8).collect();
+    b[0] = (b[0] & 0x3f) | (tag << 6);
+    b
+}
+
+fn min_width(v: u64) -> usize {
+    if v < 1 << 6 {
+        1
+    } else if v < 1 << 14 {
+        2
+    } else if v < 1 << 30 {
+        4
+    } else {
+        8
+    }
+}
+
+fn stream_id(rng: &mut Rng, kind: u64) -> StreamId {
+    let link = if rng.bool() { Link::Inbound } else { Link::Outbound };
+    let base = match kind {
+        0 => StreamId::control(link),
+        1 => StreamId::gossip(link),
+        _ => StreamId::git(link),
+    };
+    let n = *rng.pick(&[0u64, 7, 8, 2047, 2048, (1 << 27) - 1, (1 << 59) - 1]);
+    base.nth(n).expect("below 2^62")
+}
+
+fn gen_frame(rng: &mut Rng) -> Frame<Message> {
+    let link = if rng.bool() { Link::Inbound } else { Link::Outbound };
+    match rng.below(10) {
+        0..=1 => {
+            let s = stream_id(rng, 2);
+            let ctrl = match rng.below(3) {
+                0 => Control::Open { stream: s },
+                1 => Control::Close { stream: s },
+                _ => Control::Eof { stream: s },
+            };
+            Frame::control(link, ctrl)
+        }
+        2..=3 => {
+            let n = *rng.pick(&[0usize, 1, 63, 64, 200]);
+            let data = rng.bytes(n);
+            Frame::git(stream_id(rng, 2), data)
+        }
+        _ => {
+            let big = rng.chance(1, 30);
+            Frame::gossip(link, wiregen::message(rng, big))
+        }
+    }
+}
+
+fn a_case(stream: &[u8]) -> String {
+    format!("a {} {}", hex(stream), wiregen::onion_token(stream))
+}
+
+fn gen_a(rng: &mut Rng) -> String {
+    let n = rng.range(1, 3);
+    let frames: Vec<Frame<Message>> = (0..n).map(|_| gen_frame(rng)).collect();
+    let valid: Vec<u8> = frames.iter().flat_map(|f| f.to_bytes()).collect();
+    let header = |rng: &mut Rng, kind: u64| {
+        let sid = u64::from(stream_id(rng, kind));
+        let mut b = vec![b'r', b'a', b'd', 1];
+        b.extend(varint_bytes(sid, min_width(sid)));
+        b
+    };
+    let s: Vec<u8> = match rng.below(16) {
+        0..=4 => valid,
+        5..=6 => valid[..rng.below(valid.len() as u64) as usize].to_vec(),
+        7..=9 => {
+            let mut s = valid.clone();
+            for _ in 0..rng.range(1, 3) {
+                let i = rng.below(s.len() as u64) as usize;
+                match rng.below(4) {
+                    0 => s[i] ^= 1 << rng.below(8),
+                    1 => s[i] = rng.next() as u8,
+                    2 => s.insert(i, rng.next() as u8),
+                    _ => {
+                        s.remove(i);
+                    }
+                }
+            }
+            s
+        }
+        10 => {
+            // declared payload lengths at every varint boundary, few bytes behind them
+            let kind = rng.range(1, 2);
+            let mut s = header(rng, kind);
+            let declared = *rng.pick(&[0u64, 1, 63, 64, 16383, 16384, (1 << 30) - 1, 1 << 30, 1 << 40, (1 << 62) - 1]);
+            let width = *rng.pick(&[min_width(declared), 8]);
+            s.extend(varint_bytes(declared, width));
+            let k = rng.below(40) as usize;
+            s.extend(rng.bytes(k));
+            s
+        }
+        11 => {
+            // complete gossip frame, inner message truncated or over-long, then valid frames
+            let m = wiregen::message(rng, false);
+            let mut inner = wire::serialize(&m);
+            if rng.bool() {
+                inner.truncate(rng.below(inner.len() as u64) as usize);
+            } else {
+                inner.extend(rng.bytes(3));
+            }
+            let mut s = header(rng, 1);
+            s.extend(varint_bytes(inner.len() as u64, min_width(inner.len() as u64)));
+            s.extend(&inner);
+            s.extend(&valid);
+            s
+        }
+        12 => {
+            // gossip frame whose message has an unknown type / boundary-valued fields
+            let body: Vec<u8> = match rng.below(5) {
+                0 => vec![0, rng.below(20) as u8],                       // message type only
+                1 => vec![0, 10, 0xff, 0xff, 0xff, 0xff],                // ping, ponglen 65535, zeroes 65535 (missing)
+                2 => vec![0, 12, 0xff, 0xfb],                            // pong with 65531 zeroes declared, none present
+                3 => {
+                    // subscribe: filter size field arbitrary
+                    let mut b = vec![0, 8];
+                    b.extend((*rng.pick(&[0u16, 1, 1024, 4096, 16384, 65535])).to_be_bytes());
+                    b.extend(rng.bytes(20));
+                    b
+                }
+                _ => {
+                    // inventory announcement with a huge declared count
+                    let mut b = vec![0, 4];
+                    b.extend(rng.bytes(32 + 64));
+                    b.extend((*rng.pick(&[0u16, 1, 2973, 2974, 65535])).to_be_bytes());
+                    b.extend(rng.bytes(30));
+                    b
+                }
+            };
+            let mut s = header(rng, 1);
+            s.extend(varint_bytes(body.len() as u64, min_width(body.len() as u64)));
+            s.extend(&body);
+            s
+        }
+        13 => {
+            // malformed frame headers: version, stream kind 3, unknown control command, non-minimal varints
+            let mut s = vec![];
+            match rng.below(4) {
+                0 => {
+                    s.extend([b'r', b'a', b'd', rng.below(4) as u8]);
+                    s.extend(varint_bytes(2, 1));
+                    s.push(0);
+                }
+                1 => {
+                    s.extend([b'r', b'a', b'd', 1]);
+                    s.extend(varint_bytes(6 + 8 * rng.below(100), 2));
+                    s.extend(rng.bytes(3));
+                }
+                2 => {
+                    s.extend([b'r', b'a', b'd', 1]);
+                    s.extend(varint_bytes(rng.below(2), 1));
+                    s.push(rng.range(3, 255) as u8);
+                    s.extend(rng.bytes(2));
+                }
+                _ => {
+                    s.extend([b'r', b'a', b'd', 1]);
+                    s.extend(varint_bytes(4 + rng.below(2), *rng.pick(&[2, 4, 8])));
+                    let dn = rng.below(10) as usize;
+                    let data = rng.bytes(dn);
+                    s.extend(varint_bytes(data.len() as u64, *rng.pick(&[2, 4, 8])));
+                    s.extend(&data);
+                }
+            }
+            s.extend(&valid);
+            s
+        }
+        14 => {
+            let k = rng.below(64) as usize;
+            rng.bytes(k)
+        }
+        _ => {
+            // every first byte of a varint after a valid version
+            let mut s = vec![b'r', b'a', b'd', 1];
+            let k = rng.range(1, 12) as usize;
+            s.extend(rng.bytes(k));
+            s
+        }
+    };
+    a_case(&s)
+}
+
+// ---------------------------------------------------------------------------------------------------
+// (b) well-formed messages → service
+
+/// The clock of the node under test, milliseconds (the same constant as in the Lean driver).
+const NOW: u64 = 1_700_000_000_000;
+const TS_MAX: u64 = 9223372036854775807;
+
+fn signer(p: u64) -> Device<MockSigner> {
+    let mut seed = [0x42u8; 32];
+    seed[0] = p as u8;
+    Device::mock_from_seed(seed)
+}
+
+fn nid(p: u64) -> NodeId {
+    *signer(p).public_key()
+}
+
+fn addr(p: u64) -> Address {
+    Address::from(net::SocketAddr::from(([8, 8, 8, p as u8 + 1], 8776)))
+}
+
+fn rid(n: u64) -> RepoId {
+    let mut b = [0x11u8; 20];
+    b[..8].copy_from_slice(&n.to_be_bytes());
+    RepoId::from(radicle::git::Oid::try_from(&b[..]).expect("20 bytes"))
+}
+
+fn oid(n: u64) -> radicle::git::Oid {
+    let mut b = [0x22u8; 20];
+    b[..8].copy_from_slice(&n.to_be_bytes());
+    radicle::git::Oid::try_from(&b[..]).expect("20 bytes")
+}
+
+#[derive(Clone, Copy, PartialEq, Debug)]
+enum St {
+    ConnIn,
+    ConnOut,
+    Initial,
+    Attempted,
+    Disconnected,
+}
+
+enum Op {
+    Recv(u64, String),
+    Drop(u64),
+    ConnIn(u64),
+}
+
+struct CaseB {
+    sessions: Vec<(u64, St)>,
+    seeded: Vec<u64>,
+    /// peers already in the address book (as if their node announcement had been received earlier)
+    known: Vec<u64>,
+    ops: Vec<Op>,
+}
+
+fn parse_b(toks: &[&str]) -> Option<CaseB> {
+    if toks.len() < 2 {
+        return None;
+    }
+    let mut sessions = vec![];
+    if toks[0] != "-" {
+        for e in toks[0].split(',') {
+            let mut cs = e.chars();
+            let p = cs.next()?.to_digit(10)? as u64;
+            let st = match cs.next()? {
+                'c' => St::ConnIn,
+                'o' => St::ConnOut,
+                'i' => St::Initial,
+                'a' => St::Attempted,
+                'd' if p == 4 || p == 5 => St::Disconnected,
+                _ => return None,
+            };
+            if cs.next().is_some() || p > 9 || sessions.iter().any(|(q, _)| *q == p) {
+                return None;
+            }
+            sessions.push((p, st));
+        }
+    }
+    let list = |t: &str| -> Option<Vec<u64>> {
+        if t == "-" || t.is_empty() {
+            Some(vec![])
+        } else {
+            t.split(',').map(|x| x.parse().ok()).collect()
+        }
+    };
+    let (seeded, known) = match toks[1].split_once('/') {
+        Some((s, k)) => (list(s)?, list(k)?),
+        None => (list(toks[1])?, vec![]),
+    };
+    if known.iter().any(|p| *p > 8) {
+        return None;
+    }
+    let mut ops = vec![];
+    for t in &toks[2..] {
+        let (k, rest) = t.split_at(1);
+        match k {
+            "x" => ops.push(Op::Drop(peer_no(rest)?)),
+            "c" => ops.push(Op::ConnIn(peer_no(rest)?)),
+            "r" => {
+                let (p, m) = rest.split_once(':')?;
+                ops.push(Op::Recv(peer_no(p)?, m.to_string()));
+            }
+            _ => return None,
+        }
+    }
+    Some(CaseB { sessions, seeded, known, ops })
+}
+
+fn peer_no(s: &str) -> Option<u64> {
+    let p: u64 = s.parse().ok()?;
+    (p <= 9 && s.len() == 1).then_some(p)
+}
+
+fn ts(s: &str) -> Option<Timestamp> {
+    let n: u64 = s.parse().ok()?;
+    Timestamp::try_from(n).ok()
+}
+
+fn bool01(s: &str) -> Option<bool> {
+    match s {
+        "0" => Some(false),
+        "1" => Some(true),
+        _ => None,
+    }
+}
+
+/// Sign `message` as `announcer` (`sig` = validly); announcer 9 is the node under test itself.
+fn announce(message: AnnouncementMessage, announcer: u64, sig: bool, me: &Device<MockSigner>) -> Message {
+    let who = if announcer == 9 { me.clone() } else { signer(announcer) };
+    let mut ann = if sig { message.signed(&who) } else { message.signed(&signer(200 + announcer)) };
+    ann.node = *who.public_key();
+    Message::Announcement(ann)
+}
+
+fn build_msg(m: &str, me: &Device<MockSigner>) -> Option<Message> {
+    let f: Vec<&str> = m.split(',').collect();
+    match f.as_slice() {
+        ["n", an, sig, t, seed] => {
+            let an = peer_no(an)?;
+            let ann = NodeAnnouncement {
+                version: PROTOCOL_VERSION,
+                features: if bool01(seed)? { Features::SEED } else { Features::NONE },
+                timestamp: ts(t)?,
+                alias: Alias::from_str(&format!("peer{an}")).ok()?,
+                addresses: Some(addr(an)).into(),
+                nonce: 0,
+                agent: UserAgent::from_str("/radicle:test/").ok()?,
+            };
+            Some(announce(ann.into(), an, bool01(sig)?, me))
+        }
+        ["i", an, sig, t, rids] => {
+            let inv: Vec<RepoId> = if *rids == "-" { vec![] } else { rids.split(';').map(|x| x.parse().ok().map(rid)).collect::<Option<_>>()? };
+            let ann = InventoryAnnouncement { inventory: BoundedVec::try_from(inv).ok()?, timestamp: ts(t)? };
+            Some(announce(ann.into(), peer_no(an)?, bool01(sig)?, me))
+        }
+        ["f", an, sig, t, r, refs] => {
+            let mut v = vec![];
+            if *refs != "-" {
+                for e in refs.split(';') {
+                    let (remote, at) = e.split_once('@')?;
+                    let remote = peer_no(remote)?;
+                    let remote = if remote == 9 { *me.public_key() } else { nid(remote) };
+                    v.push(RefsAt { remote, at: oid(at.parse().ok()?) });
+                }
+            }
+            let ann = RefsAnnouncement { rid: rid(r.parse().ok()?), refs: BoundedVec::try_from(v).ok()?, timestamp: ts(t)? };
+            Some(announce(ann.into(), peer_no(an)?, bool01(sig)?, me))
+        }
+        ["s", since, until] => Some(Message::subscribe(Filter::default(), ts(since)?, ts(until)?)),
+        ["p", n] => Some(Message::Ping(Ping { ponglen: n.parse().ok()?, zeroes: ZeroBytes::new(0) })),
+        ["q", n] => Some(Message::Pong { zeroes: ZeroBytes::new(n.parse().ok()?) }),
+        ["o"] => Some(Message::Info(Info::RefsAlreadySynced { rid: rid(1), at: oid(1) })),
+        _ => None,
+    }
+}
+
+/// The node database of every case is a fresh SQLite file: keep it in memory-backed storage when there is
+/// one (thousands of fsyncs on a loaded disk dominate the run time otherwise).
+fn scratch_dir() -> tempfile::TempDir {
+    let shm = std::path::Path::new("/dev/shm");
+    if shm.is_dir() {
+        if let Ok(d) = tempfile::TempDir::new_in(shm) {
+            return d;
+        }
+    }
+    tempfile::TempDir::new().expect("tempdir")
+}
+
+fn run_b(toks: &[&str]) -> Outcome {
+    let bad = || Outcome::new("bad-case").trivial();
+    let Some(case) = parse_b(toks) else { return bad() };
+    // Build every message first (a malformed case text must not look like a run).
+    let me = Device::mock_from_seed([0xA1u8; 32]);
+    let mut msgs = vec![];
+    for op in &case.ops {
+        if let Op::Recv(_, m) = op {
+            match catch(|| build_msg(m, &me)) {
+                Ok(Some(msg)) => msgs.push(Some(msg)),
+                _ => return bad(),
+            }
+        } else {
+            msgs.push(None);
+        }
+    }
+    let mut config = service::Config::test(Alias::new("node"));
+    // Static peer set: the node does not dial addresses from its address book on its own
+    // (`maintain_connections`), so that the sessions are exactly those the case text creates.
+    config.peers = radicle::node::config::PeerConfig::Static;
+    for (p, _) in &case.sessions {
+        if *p == 4 || *p == 5 {
+            config.connect.insert(ConnectAddress::from((nid(*p), addr(*p))));
+        }
+    }
+    let setup = catch(|| {
+        let mut peer = Peer::config(
+            "node",
+            [9, 9, 9, 9],
+            MockStorage::empty(),
+            Config {
+                config,
+                local_time: LocalTime::from_millis(NOW as u128),
+                policy: SeedingPolicy::default(),
+                signer: me.clone(),
+                rng: fastrand::Rng::with_seed(7),
+                tmp: scratch_dir(),
+            },
+        );
+        peer.initialize();
+        for r in &case.seeded {
+            peer.seed(&rid(*r), Scope::All).expect("seed");
+        }
+        for p in &case.known {
+            peer.service
+                .database_mut()
+                .addresses_mut()
+                .insert(
+                    &nid(*p),
+                    PROTOCOL_VERSION,
+                    Features::SEED,
+                    &Alias::new(format!("peer{p}")),
+                    0,
+                    &UserAgent::default(),
+                    Timestamp::try_from(NOW - 10).expect("timestamp"),
+                    Some(radicle::node::KnownAddress::new(addr(*p), radicle::node::address::Source::Peer)),
+                )
+                .expect("address book");
+        }
+        let mut links = std::collections::BTreeMap::new();
+        for (p, st) in &case.sessions {
+            let (n, a) = (nid(*p), addr(*p));
+            let persistent = *p == 4 || *p == 5;
+            if *st == St::ConnIn {
+                peer.connected(n, a, Link::Inbound);
+                links.insert(*p, Link::Inbound);
+                continue;
+            }
+            if !persistent {
+                peer.command(Command::Connect(n, a.clone(), ConnectOptions::default()));
+            }
+            links.insert(*p, Link::Outbound);
+            if *st == St::Initial {
+                continue;
+            }
+            peer.attempted(n, a.clone());
+            if *st == St::Attempted {
+                continue;
+            }
+            peer.connected(n, a.clone(), Link::Outbound);
+            if *st == St::Disconnected {
+                peer.disconnected(n, Link::Outbound, &DisconnectReason::Command);
+            }
+        }
+        peer.outbox().for_each(drop);
+        (peer, links)
+    });
+    let (mut peer, mut links) = match setup {
+        Ok(x) => x,
+        Err(msg) => return Outcome::new("setup-panic").violation("harness-setup", format!("setting up the session states panicked: {msg}")),
+    };
+    // Check that the set-up really produced the session states the case names.
+    for (p, st) in &case.sessions {
+        use radicle_node::service::ServiceState as _;
+        let ok = match peer.service.sessions().get(&nid(*p)) {
+            None => false,
+            Some(s) => match st {
+                St::ConnIn | St::ConnOut => s.is_connected(),
+                St::Initial => s.is_initial(),
+                St::Attempted => matches!(s.state, session::State::Attempted),
+                St::Disconnected => s.is_disconnected(),
+            },
+        };
+        if !ok {
+            return Outcome::new("setup-mismatch").violation("harness-setup", format!("peer {p} is not in state {st:?} after set-up"));
+        }
+    }
+    let mut out = String::new();
+    let mut o = Outcome::new("");
+    for (op, msg) in case.ops.iter().zip(msgs.into_iter()) {
+        match op {
+            Op::Drop(p) => {
+                let link = links.get(p).copied().unwrap_or(Link::Inbound);
+                match catch(|| peer.disconnected(nid(*p), link, &DisconnectReason::Command)) {
+                    Ok(()) => out.push('-'),
+                    Err(msg) => {
+                        out.push('P');
+                        o = o.violation("service-panic", format!("Service::disconnected panicked: {msg}"));
+                        break;
+                    }
+                }
+            }
+            Op::ConnIn(p) => {
+                links.insert(*p, Link::Inbound);
+                match catch(|| peer.connected(nid(*p), addr(*p), Link::Inbound)) {
+                    Ok(()) => out.push('-'),
+                    Err(msg) => {
+                        out.push('P');
+                        o = o.violation("service-panic", format!("Service::connected panicked: {msg}"));
+                        break;
+                    }
+                }
+            }
+            Op::Recv(p, text) => {
+                let msg = msg.expect("built");
+                let from = nid(*p);
+                let kind = text.split(',').next().unwrap_or("?").to_string();
+                match catch(|| {
+                    peer.receive(from, msg);
+                }) {
+                    Err(m) => {
+                        out.push('P');
+                        o = o.tag("b:panic").violation("service-panic", format!("receiving `{text}` from peer {p} panicked: {m}"));
+                        break;
+                    }
+                    Ok(()) => {
+                        let mut class = 'o';
+                        let mut pong = false;
+                        let mut fetches = 0;
+                        for io in peer.outbox() {
+                            match io {
+                                Io::Disconnect(n, DisconnectReason::Session(e)) if n == from => {
+                                    class = match e {
+                                        session::Error::Misbehavior => 'm',
+                                        session::Error::InvalidTimestamp(_) => 't',
+                                        _ => 'd',
+                                    }
+                                }
+                                Io::Disconnect(..) => class = 'd',
+                                Io::Write(n, ms) if n == from => {
+                                    if ms.iter().any(|m| matches!(m, Message::Pong { .. })) {
+                                        pong = true;
+                                    }
+                                }
+                                Io::Fetch { .. } => fetches += 1,
+                                _ => {}
+                            }
+                        }
+                        out.push(class);
+                        if pong {
+                            out.push('+');
+                        }
+                        o = o.tag(format!("b:{kind}:{class}"));
+                        if fetches > 0 {
+                            o = o.tag("b:fetch-initiated");
+                        }
+                    }
+                }
+            }
+        }
+    }
+    {
+        use radicle_node::service::ServiceState as _;
+        if peer.service.sessions().values().any(|s| !s.queue.is_empty()) {
+            o = o.tag("b:fetch-queued");
+        }
+    }
+    o.output = out;
+    o.tags.sort();
+    o.tags.dedup();
+    o
+}
+
+fn gen_b(rng: &mut Rng) -> String {
+    // session states
+    let mut sessions: Vec<(u64, char)> = vec![];
+    for p in 0..6u64 {
+        if rng.chance(2, 5) {
+            continue;
+        }
+        let st = if p >= 4 { *rng.pick(&['c', 'o', 'i', 'a', 'd', 'd']) } else { *rng.pick(&['c', 'c', 'o', 'o', 'i', 'a']) };
+        sessions.push((p, st));
+    }
+    let seeded: Vec<u64> = (1..=3u64).filter(|_| rng.chance(2, 3)).collect();
+    let with_session: Vec<u64> = sessions.iter().map(|(p, _)| *p).collect();
+    let pick_peer = |rng: &mut Rng| -> u64 {
+        if !with_session.is_empty() && rng.chance(5, 6) {
+            *rng.pick(&with_session)
+        } else {
+            rng.below(8)
+        }
+    };
+    let tsv = |rng: &mut Rng| -> u64 {
+        match rng.below(12) {
+            0 => 0,
+            1 => 1,
+            2 => NOW - 3_600_001,
+            3 => NOW + 3_600_000, // exactly MAX_TIME_DELTA ahead: accepted
+            4 => NOW + 3_600_001, // one millisecond too far
+            5 => TS_MAX,
+            6 => NOW,
+            _ => NOW + rng.below(1000),
+        }
+    };
+    let n_ops = rng.range(1, 14);
+    let mut ops: Vec<String> = vec![];
+    for _ in 0..n_ops {
+        let p = pick_peer(rng);
+        let announcer = match rng.below(8) {
+            0 => 9,
+            1 => rng.below(8),
+            _ => p,
+        };
+        let sig = if rng.chance(1, 8) { 0 } else { 1 };
+        let op = match rng.below(20) {
+            0 => format!("x{p}"),
+            1 => format!("c{p}"),
+            // (a SEED node announcement that passes every guard costs one scrypt evaluation: keep them rare)
+            2..=5 => format!("r{p}:n,{announcer},{sig},{},{}", tsv(rng), rng.chance(1, 8) as u8),
+            6..=9 => {
+                let rids = match rng.below(6) {
+                    0 => "-".to_string(),
+                    1 => "1".to_string(),
+                    2 => "1;2;3".to_string(),
+                    3 => "2;2;7".to_string(),
+                    4 if rng.chance(1, 6) => (100..100 + 2973).map(|x| x.to_string()).collect::<Vec<_>>().join(";"),
+                    _ => format!("{};{}", rng.range(1, 3), rng.range(1, 5)),
+                };
+                format!("r{p}:i,{announcer},{sig},{},{rids}", tsv(rng))
+            }
+            10..=12 => {
+                let refs = match rng.below(6) {
+                    0 => "-".to_string(),
+                    1 => format!("{announcer}@1"),
+                    2 => "9@3".to_string(),
+                    3 => format!("{announcer}@1;9@2;{}@4", rng.below(8)),
+                    4 if rng.chance(1, 6) => (0..1024).map(|i| format!("{}@{}", i % 8, i)).collect::<Vec<_>>().join(";"),
+                    _ => format!("{}@{}", rng.below(8), rng.below(5)),
+                };
+                format!("r{p}:f,{announcer},{sig},{},{},{refs}", tsv(rng), rng.range(1, 4))
+            }
+            13..=15 => {
+                let v = [0u64, 1, 3, 5, NOW, NOW + 1, TS_MAX];
+                format!("r{p}:s,{},{}", *rng.pick(&v), *rng.pick(&v))
+            }
+            16..=17 => format!("r{p}:p,{}", *rng.pick(&[0u64, 1, 100, 65530, 65531, 65532, 65535])),
+            18 => format!("r{p}:q,{}", *rng.pick(&[0u64, 5, 65531, 65535])),
+            _ => format!("r{p}:o"),
+        };
+        ops.push(op);
+    }
+    let s = if sessions.is_empty() { "-".to_string() } else { sessions.iter().map(|(p, c)| format!("{p}{c}")).collect::<Vec<_>>().join(",") };
+    let known: Vec<u64> = (0..8u64).filter(|_| rng.chance(1, 2)).collect();
+    format!("b {s} {}/{} {}", nats(&seeded), nats(&known), ops.join(" "))
+}
+
+/// Directed histories that reach the fetch scheduling sites (fetch, already fetching, at capacity, queue).
+fn directed_b(rng: &mut Rng) -> String {
+    let p = rng.below(4);
+    let q = (p + 1) % 4;
+    let st = *rng.pick(&["c", "o", "i", "a"]);
+    let mut t = NOW;
+    let mut next = || {
+        t += 1;
+        t
+    };
+    let mut ops = vec![
+        format!("r{p}:i,{p},1,{},1;2;3", next()),
+        format!("r{q}:i,{q},1,{},1;2", next()),
+        format!("r{p}:f,{p},1,{},1,{p}@1;{q}@2", next()),
+        format!("r{p}:f,{p},1,{},1,{p}@1;{q}@2", next()),
+        format!("r{q}:f,{p},1,{},2,{p}@3", next()),
+    ];
+    match rng.below(4) {
+        0 => ops.insert(3, format!("x{p}")),
+        1 => ops.insert(4, format!("c{p}")),
+        2 => {
+            ops.push(format!("x{p}"));
+            ops.push(format!("c{p}"));
+            ops.push(format!("r{p}:i,{p},1,{},1;2;3", next()));
+        }
+        _ => {}
+    }
+    if rng.chance(1, 3) {
+        // relay-only: `p` never speaks; its announcements reach us through `q` while `p`'s session is in any
+        // state, including not connected / disconnected (persistent peers 4, 5) / absent
+        let p = *rng.pick(&[0u64, 1, 4, 5]);
+        let q = 2;
+        let st = if p >= 4 { *rng.pick(&["c", "o", "i", "a", "d"]) } else { *rng.pick(&["c", "o", "i", "a", ""]) };
+        let sess = if st.is_empty() { format!("{q}c") } else { format!("{p}{st},{q}c") };
+        let ops = [
+            format!("r{q}:i,{p},1,{},1;2;3", next()),
+            format!("r{q}:f,{p},1,{},1,{p}@1;{q}@2", next()),
+            format!("r{q}:f,{p},1,{},2,{p}@3", next()),
+            format!("r{q}:i,{p},1,{},2;3", next()),
+        ];
+        return format!("b {sess} 1,2,3/{p},{q} {}", ops.join(" "));
+    }
+    format!("b {p}{st},{q}c 1,2,3/{p},{q} {}", ops.join(" "))
+}
+
+// ---------------------------------------------------------------------------------------------------
+
+fn run_case(input: &str) -> Outcome {
+    let toks: Vec<&str> = input.split(' ').collect();
+    match toks.first().copied() {
+        Some("a") => run_a(&toks[1..]),
+        Some("b") => run_b(&toks[1..]),
+        Some("c") => header::run_header(&toks[1..]),
+        _ => Outcome::new("bad-case").trivial(),
+    }
+}
+
+fn c_case(stream: &[u8], chunk: usize) -> String {
+    format!("c{}", &header::header_case(stream, chunk)[1..])
+}
+
 fn main() {
-    eprintln!("C13: harness not implemented");
-    std::process::exit(3);
+    let args: Vec<String> = std::env::args().collect();
+    if args.get(1).map(|s| s.as_str()) == Some("mkcase") {
+        // `c13 mkcase c <text>` / `c13 mkcase a <hex>`: print a corpus line with the real graphs
+        match args.get(2).map(|s| s.as_str()) {
+            Some("c") => args[3..].iter().for_each(|a| println!("{}", c_case(&header::unescape(a), 4))),
+            Some("a") => args[3..].iter().for_each(|a| println!("{}", a_case(&unhex(a).expect("hex")))),
+            _ => {}
+        }
+        return;
+    }
+    let mut ctx = Ctx::from_args("C13");
+    if !ctx.run_fixed(run_case) {
+        let mut rng = ctx.rng();
+        // (c) all 65 536 four-hex-digit length prefixes, in front of a fixed valid request of 56 bytes:
+        // every relation between declared length, buffer size and available bytes occurs.
+        let payload = b"git-upload-pack /rad:z3gqcJUoA1n9HaHKufZs5FCSGazv5\0host=seed\0";
+        let step = ctx.size(1, 1);
+        let mut l = 0u32;
+        while l < 0x10000 {
+            let mut stream = format!("{l:04x}").into_bytes();
+            stream.extend_from_slice(payload);
+            if l % 257 == 0 {
+                // some with enough bytes behind them to satisfy large declared lengths
+                stream.extend(std::iter::repeat(b'a').take(1100));
+            }
+            let input = c_case(&stream, 4096);
+            let o = run_case(&input);
+            ctx.record(&input, o);
+            l += step as u32;
+        }
+        for _ in 0..ctx.size(1_500, 60_000) {
+            let input = format!("c{}", &header::gen_header_case(&mut rng)[1..]);
+            let o = run_case(&input);
+            ctx.record(&input, o);
+        }
+        // (a)
+        for _ in 0..ctx.size(4_000, 150_000) {
+            let input = gen_a(&mut rng);
+            let o = run_case(&input);
+            ctx.record(&input, o);
+        }
+        // (b)
+        for i in 0..ctx.size(450, 4_000) {
+            let input = if i % 7 == 0 { directed_b(&mut rng) } else { gen_b(&mut rng) };
+            let o = run_case(&input);
+            ctx.record(&input, o);
+        }
+    }
+    ctx.finish(
+        "(a) frame streams: 1-3 real frames (control/git/gossip with generated messages) valid, truncated, byte-mutated, with boundary \
+         declared lengths, truncated/over-long inner messages, boundary-valued message bodies, malformed headers, random bytes; \
+         (b) service histories: up to 6 peers in every session state (none/initial/attempted/connected in+out/disconnected), up to 14 ops \
+         (announcements with timestamps 0,1,now-delta-1,now+delta,now+delta+1,i64::MAX, bad signatures, own id, unknown announcers, empty and \
+         maximal inventories/refs, subscribe with since>until, pings at the pong-size boundary, pongs, info, disconnect/reconnect events) plus \
+         directed histories reaching fetch / already-fetching / at-capacity / queue; (c) all 65536 hex length prefixes and structured request headers; \
+         non-trivial = well-formed case text; distinct by input text",
+        false,
+    );
 }
